@@ -1,10 +1,11 @@
 (** C14 — property theorems only; each closed by [exact] of a lemma proved elsewhere.
     [w] = the wrap function of ArithUint256 ([wrap256] in the library); side
     conditions are the decidable predicates of Rewards/BoundsDefs.v. *)
-From Coq Require Import ZArith List Permutation.
+From Coq Require Import ZArith List Permutation Floats.
+From VB Require Import Gen.RewardParams.
 From VB Require Import Rewards.BigDecDefs Rewards.CalcDefs Rewards.SpecDefs Rewards.BoundsDefs
      Rewards.StructProofs Rewards.MapProofs Rewards.FinalProofs
-     Rewards.WindowDefs Rewards.WindowProofs.
+     Rewards.WindowDefs Rewards.WindowProofs Rewards.ConvDefs Rewards.ConvProofs.
 Import ListNotations.
 Local Open Scope Z_scope.
 
@@ -165,3 +166,28 @@ Theorem C14_curve_monotone_refuted :
   exists p r x x', params_okb p = true /\ 0 <= x <= x' /\ spec_curve p r x' < spec_curve p r x.
 Proof. exact curve_monotone_refuted. Qed.
 Print Assumptions C14_curve_monotone_refuted.
+
+(** PopRewardsBigDecimal(double) in primitive binary64 floats: a defined conversion yields a uint64_t
+    (the in_u64 side conditions of params_okb hold for every converted double) *)
+Theorem C14_conv_double_u64 : forall d z, conv_double d = Some z -> in_u64 z = true.
+Proof. exact conv_double_u64. Qed.
+Print Assumptions C14_conv_double_u64.
+
+(** the converted default parameters are what the float model computes from the source's decimal literals *)
+Theorem C14_default_conversion :
+  conv_lit gen_startOfSlope_lit_num gen_startOfSlope_lit_den = Some (p_start default_params) /\
+  conv_lit gen_slopeNormal_lit_num gen_slopeNormal_lit_den = Some (p_slopeN default_params) /\
+  conv_lit gen_slopeKeystone_lit_num gen_slopeKeystone_lit_den = Some (p_slopeK default_params) /\
+  conv_lit gen_maxScoreThresholdNormal_lit_num gen_maxScoreThresholdNormal_lit_den = Some (p_thrN default_params) /\
+  conv_lit gen_maxScoreThresholdKeystone_lit_num gen_maxScoreThresholdKeystone_lit_den = Some (p_thrK default_params) /\
+  conv_lits gen_roundRatios_lit_num gen_roundRatios_lit_den = map Some (p_ratios default_params) /\
+  conv_lits gen_lookupTable_lit_num gen_lookupTable_lit_den = map Some (p_table default_params).
+Proof. exact default_conversion. Qed.
+Print Assumptions C14_default_conversion.
+
+(** the conversion does not return literal * 1e8 for every entry of the default table (0.06766428 -> 6766427) *)
+Theorem C14_conversion_exact_refuted :
+  exists num den z, In (num, den) (combine gen_lookupTable_lit_num gen_lookupTable_lit_den) /\
+    conv_lit num den = Some z /\ z * den < num.
+Proof. exact conversion_exact_refuted. Qed.
+Print Assumptions C14_conversion_exact_refuted.
